@@ -217,7 +217,11 @@ func (f *family) rollup() {
 			}
 
 			// finally, need commit edit log
-			f.commitEditLog(editLog)
+			if !f.commitEditLog(editLog) {
+				// NOTE: rollup marks are kept, cannot clean the reference files of target families,
+				// else these files will be rolled up again.
+				return
+			}
 
 			// clean reference files from target file
 			for targetFamily, files := range targetFamiles {
